@@ -1,15 +1,19 @@
 /-
 C03 — marshalling then reloading a document loses and invents nothing.
-Property theorems only. Model and spec: KinModel/Marshal.lean; helper lemmas: KinModel/Lemmas/C03.lean;
-table: KinModel/Gen/Descriptors.lean (regenerated from the repository under test on every run).
+Property theorems only. Model and spec: KinModel/Marshal.lean; helper lemmas: KinModel/Lemmas/C03.lean (flat),
+C03Deep.lean (deep stability), C03Normal.lean (deep normal form); table: KinModel/Gen/Descriptors.lean
+(regenerated from the repository under test on every run).
 
 Objects are Go maps: two objects are "the same JSON" when every key looks up the same value, which is how
-the theorems state equality (`∀ k, lookup k a = lookup k b`).
+the flat theorems state equality (`∀ k, lookup k a = lookup k b`); the deep theorems use `JV.same` (same
+members under the same keys with the same values at every depth) and, for stability, plain equality.
 
 Full-strength goal (DESIGN §4):   ∀ d ∈ descriptors, d.agree        — and from it, for every kind,
   normal-form round trip (`flat_normal_roundtrip`), stability (`flat_stable`), nothing lost
   (`flat_keeps_field`, `flat_keeps_unknown`), nothing invented (`flat_nothing_invented`);
-  over the whole document tree: `rt_stable_partial` (deep stability, by induction; only exclusion `JV.clean` = DateExampleTrim at depth).
+  over the whole document tree, by induction: `rt_stable_partial` (stability for every input) and
+  `rt_normal_partial` (normal-form documents come back as the same JSON); only exclusion `JV.clean` =
+  DateExampleTrim at any depth.
 `all_kinds_agree` holds of the tree at full strength since the repairs 901ea22 (RequestBody.content /
 OAuthFlow.scopes: a nil map is written as {}, former class RequiredMapAbsent) and 2f6387f (an empty type list
 is omitted, former class EmptyTypeList); `requiredMap_fixed`, `emptyTypes_fixed` are the regression theorems
